@@ -498,10 +498,41 @@ def r11_8(ck):
                        A.call_receiver(c)), c)
     ck.floor('R11.8', n, 3, 'path resolutions in topology_state')
     dv = ck.fn('Store.divide_value', 'core.store')
-    txt = A.unparse(dv.node)
-    ok = "'state': self.topology_state(topology)" in txt and \
-        "'config': config" in txt and 'divider(self.get_value(), **args)' \
-        in txt
+    from ..dataflow import dict_entries, expand
+    from ..loader import enclosing_stmt
+    ok = False
+    for c in A.calls_in(dv.node):
+        if not (isinstance(c.func, ast.Name) and c.func.id == 'divider'):
+            continue
+        a0 = A.arg_of(c, 0)
+        a0 = expand(dv.node, a0, enclosing_stmt(c)) if a0 is not None \
+            else None
+        if a0 is None or A.unparse(a0) != 'self.get_value()':
+            ok = False
+            break
+        entries = [(k.arg, k.value, c) for k in c.keywords if k.arg]
+        for k in c.keywords:
+            if k.arg is None:
+                e = k.value
+                if isinstance(e, ast.Name):
+                    entries += dict_entries(dv.node, e.id)
+                elif isinstance(e, ast.Dict):
+                    entries += [(kk.value if isinstance(kk, ast.Constant)
+                                 else None, vv, c)
+                                for kk, vv in zip(e.keys, e.values)]
+        if not entries:
+            continue        # the plain divider(value) call
+        st = [expand(dv.node, v, enclosing_stmt(s2))
+              for k, v, s2 in entries if k == 'state']
+        cf = [expand(dv.node, v, enclosing_stmt(s2))
+              for k, v, s2 in entries if k == 'config']
+        ok = bool(st) and all(
+            isinstance(v, ast.Call) and A.call_name(v) == 'topology_state'
+            and A.is_name(A.call_receiver(v), 'self')
+            and "['topology']" in A.unparse(v.args[0] if v.args else v)
+            for v in st) and bool(cf) and all(
+            "['config']" in A.unparse(v) for v in cf) and {
+                k for k, _v, _s in entries} <= {'state', 'config'}
     ck.require(ok, 'R11.8', dv, dv.node.name,
                'divide_value passes state=topology_state(topology) and '
                'config=config to the divider', None)
